@@ -2,6 +2,7 @@ import Drpc.Lemmas.ManagerSysSched
 import Drpc.Lemmas.ManagerSysTok
 import Drpc.Lemmas.ManagerSysClose
 import Drpc.Lemmas.ManagerSysCtx
+import Drpc.Lemmas.ManagerSysFin
 import Drpc.Props.Manager
 /-
   Properties of the atomic-step model of drpcmanager.Manager (`Drpc/Manager/Sys.lean`, the code after fix
@@ -599,5 +600,94 @@ theorem sem_leak_after_retract :
   · have e : spawnBound leakSched = 4 := by decide
     rw [idle_above_runF hr (init_idle false) (Nat.le_refl 2) t (by rw [e]; somega)]
     rfl
+
+/-! ## Part 5 — `prev.done` is reported only for a finished stream (hypothesis (S2) of Props/ComposeManager.lean) -/
+
+/-- (a) the fin flag of a stream is stable: one thread step or one environment move never clears it, in an
+    execution that does not re-use stream ids.  (The only step that could: `.nNew` re-creates the record of
+    its id; `fin_reset_by_reused_id_artefact`.) -/
+theorem stream_fin_is_stable {soft : Bool} {s : St} (h : ReachF soft s) {p : Sid} (hp : (s.sh.strm p).fin = true) :
+    (∀ t ch s', step s t ch = some s' → FreshStep s t → (s'.sh.strm p).fin = true) ∧
+    (∀ e s', envStep s e = some s' → (s'.sh.strm p).fin = true) :=
+  ⟨fun _ _ _ hs hf => fin_stable_step h hs hf hp, fun _ _ hs => fin_stable_env hs hp⟩
+
+/-- … for the executions of `ReachP` (where ids are fresh by `sim_reachP`) without side condition -/
+theorem stream_fin_is_stable_reachP {soft : Bool} {role : Call} {s : St} (h : ReachP soft role s) {p : Sid}
+    (hp : (s.sh.strm p).fin = true) :
+    (∀ t ch s', step s t ch = some s' → (s'.sh.strm p).fin = true) ∧
+    (∀ e s', envStep s e = some s' → (s'.sh.strm p).fin = true) := by
+  obtain ⟨hF, ps, hrun, hsim⟩ := sim_reachP h
+  exact ⟨fun t _ _ hs => fin_stable_step hF hs (fresh_of_sim (safe_reachF hF) hsim t) hp,
+    fun _ _ hs => fin_stable_env hs hp⟩
+
+/-- ARTEFACT of re-used ids (the run of `trace_rejected_repeated_invoke`, two steps earlier): the second
+    NewServerStream for id 2 re-creates the record of stream 2 and thereby clears its fin flag -/
+def dupPreState : St := (runSched { sh := { soft := false } } (dupSched.take (dupSched.length - 2))).get (by decide)
+
+theorem fin_reset_by_reused_id_artefact :
+    ∃ s s', Reach false s ∧ step s 2 0 = some s' ∧ (s.sh.strm 2).fin = true ∧ (s'.sh.strm 2).fin = false ∧
+      s.pc 2 = .nNew .server 2 := by
+  refine ⟨dupPreState, (step dupPreState 2 0).get (by decide), reach_runSched .init (Option.some_get _).symm,
+    (Option.some_get _).symm, ?_, ?_, ?_⟩ <;> decide
+
+/-- (b) invariant form: a thread about to report `prev.done p` has seen stream `p` finished, and the flag is
+    still set; and every `prev.done p` in the trace is for a finished stream -/
+theorem sys_prevDone_only_after_finished_reachF {soft : Bool} {s : St} (h : ReachF soft s) :
+    (∀ t c p, s.pc t = .aEvPrevDone c p → (s.sh.strm p).fin = true) ∧
+    (∀ p, Ev.prevDone p ∈ s.sh.trace → (s.sh.strm p).fin = true) :=
+  ⟨(prevFin_reachF h).atEv, (prevFin_reachF h).inTrace⟩
+
+theorem sys_prevDone_only_after_finished {soft : Bool} {role : Call} {s : St} (h : ReachP soft role s) {p : Sid}
+    (hp : Ev.prevDone p ∈ s.sh.trace) : (s.sh.strm p).fin = true :=
+  (prevFin_reachF (reachP_reachF h)).inTrace p hp
+
+/-- the prefix form: the step that appends `prev.done p` is taken from `.aEvPrevDone _ p`, where the flag is
+    already set — so at EVERY earlier moment at which the trace contained `prev.done p`, stream `p` was finished -/
+theorem sys_prevDone_reported_when_finished {soft : Bool} {role : Call} {s s' : St} {t : Tid} {ch : Nat} {p : Sid}
+    (h : ReachP soft role s) (hs : step s t ch = some s') (hnew : Ev.prevDone p ∈ s'.sh.trace)
+    (hold : Ev.prevDone p ∉ s.sh.trace) : (s.sh.strm p).fin = true ∧ ∃ c, s.pc t = .aEvPrevDone c p := by
+  obtain ⟨sh', p', htr, rfl⟩ := step_tr hs
+  simp only [upd_sh] at hnew
+  rw [tr_trace htr, List.mem_append] at hnew
+  rcases hnew with h1 | h1
+  · exact absurd h1 hold
+  · cases he : pcEv (s.pc t) with
+    | none => rw [he] at h1; cases h1
+    | some e =>
+      rw [he] at h1
+      simp only [Option.toList, List.mem_singleton] at h1
+      subst h1
+      obtain ⟨c, hc⟩ := pcEv_prevDone he
+      exact ⟨(prevFin_reachF (reachP_reachF h)).atEv t c p hc, c, hc⟩
+
+theorem sys_prevDone_only_after_finished_serve {soft : Bool} {s : St} (h : ReachServe soft s) {p : Sid}
+    (hp : Ev.prevDone p ∈ s.sh.trace) : (s.sh.strm p).fin = true :=
+  sys_prevDone_only_after_finished (reachServe_reachP h) hp
+
+theorem sys_prevDone_only_after_finished_client {soft : Bool} {s : St} (h : ReachClient soft s)
+    (hterm : s.sh.term = false) {p : Sid} (hp : Ev.prevDone p ∈ s.sh.trace) : (s.sh.strm p).fin = true :=
+  sys_prevDone_only_after_finished (reachClient_reachP h hterm) hp
+
+/-- (c) non-vacuity: after `good_run`, a second NewClientStream waits for stream 1 and reports `prev.done 1` -/
+def pdS1 : St := (runSchedP .client goodS3 [.en (.spawn 3 .client), S 3 0]).get (by decide)
+def pdS2 : St := (step pdS1 3 0).get (by decide)
+def pdS3 : St := (runSchedP .client pdS2 [S 3 0, S 3 0, S 3 0, S 3 0]).get (by decide)
+
+theorem prevDone_run :
+    ∃ s, ReachP false .client s ∧ Ev.prevDone 1 ∈ s.sh.trace ∧ (s.sh.strm 1).fin = true ∧
+      s.sh.trace = [.semAcq, .prevNone, .newBegin 1, .newEnd 1, .newOffer 1, .deliver 1, .sfinRecv 1, .semRel,
+        .semAcq, .prevDone 1] := by
+  have r1 : ReachP false .client goodS1 := reachP_runSchedP .init (Option.some_get _).symm
+  have r2 : ReachP false .client goodS2 := by
+    refine .step 2 0 r1 (Option.some_get _).symm ?_
+    intro c _ _ hst
+    obtain ⟨sid, hp, -⟩ := hst
+    have : (goodS1.sh.strm sid).pub = false := rfl
+    rw [this] at hp; cases hp
+  have r3 : ReachP false .client goodS3 := reachP_runSchedP r2 (Option.some_get _).symm
+  have r4 : ReachP false .client pdS1 := reachP_runSchedP r3 (Option.some_get _).symm
+  have r5 : ReachP false .client pdS2 :=
+    .step 3 0 r4 (Option.some_get _).symm (fun _ _ _ => not_stale_of_not_term r4 (by decide))
+  refine ⟨pdS3, reachP_runSchedP r5 (Option.some_get _).symm, ?_, ?_, ?_⟩ <;> decide
 
 end Drpc.Props.ManagerSys
